@@ -172,25 +172,42 @@ Proof.
   - cbn [forallb] in Hw. apply andb_prop in Hw as [Hc _]. now rewrite (space_not_pipe c Hc).
 Qed.
 
-Section Assembly.
-Hypothesis stage_rt : forall (o : popts) (st : stage) (t k : str),
-  popts_ok o = true -> wf_stage o st = true -> stage_ok st = true -> pp_stage o st = Some t ->
+(** ** the assembly, for any stage printer [P] (covering the stages [W]) whose output is non-empty, does
+    not start with a pipe and is read back by [p_oper] *)
+Section AssemblyGen.
+Variable o : popts.
+Hypothesis Ho : popts_ok o = true.
+Variable P : stage -> option str.
+Variable W : stage -> bool.
+Hypothesis P_nph : forall (st : stage) (t : str), P st = Some t -> W st = true -> nph t.
+Hypothesis P_rt : forall (st : stage) (t k : str),
+  W st = true -> stage_ok st = true -> P st = Some t ->
   stage_stop k = true -> single_pipe k = true ->
   exists lo, p_oper (t ++ k) = POk lo (skip_spaces k) /\ check_lop true lo = Some [st].
 
+Lemma stages_nph_gen : forall (stages : list stage) (ts : list str),
+  all_some (map P stages) = Some ts -> forallb W stages = true -> Forall nph ts.
+Proof.
+  induction stages as [|st stages IH]; intros ts Hts Hwf.
+  - cbn [map all_some] in Hts. injection Hts as <-. constructor.
+  - cbn [map] in Hts. apply all_some_cons in Hts as (t & ts' & Ht & Hts' & ->).
+    cbn [forallb] in Hwf. apply andb_prop in Hwf as [Hwf1 Hwf2].
+    constructor; [exact (P_nph st t Ht Hwf1)|exact (IH ts' Hts' Hwf2)].
+Qed.
+
 (** the loop of [separated_list1]: from just after a stage, it reads every remaining stage, in order,
     and stops at the end of the text; the fuel (the length of the text) suffices *)
-Lemma stages_loop (o : popts) : popts_ok o = true ->
+Lemma stages_loop_gen :
   forall (stages : list stage) (ts : list str),
-  all_some (map (pp_stage o) stages) = Some ts ->
-  forallb (wf_stage o) stages = true -> forallb stage_ok stages = true ->
+  all_some (map P stages) = Some ts ->
+  forallb W stages = true -> forallb stage_ok stages = true ->
   forall (fuel : nat) (acc : list lop),
   length (skip_spaces (qtail o ts)) <= fuel ->
   exists los,
     sep_list_more fuel (ptag "|") p_oper (skip_spaces (qtail o ts)) acc = POk (rev acc ++ los) [] /\
     map_opt_list (check_lop true) los = Some (map (fun st => [st]) stages).
 Proof.
-  intros Ho. induction stages as [|st stages IH]; intros ts Hts Hwf Hok fuel acc Hfuel.
+  induction stages as [|st stages IH]; intros ts Hts Hwf Hok fuel acc Hfuel.
   - cbn [map all_some] in Hts. injection Hts as <-. exists []. split; [|reflexivity].
     change (skip_spaces (qtail o [])) with (@nil N). rewrite app_nil_r.
     destruct fuel as [|f]; cbn [sep_list_more]; [reflexivity|]. rewrite ptag_pipe_nil. reflexivity.
@@ -200,8 +217,8 @@ Proof.
     destruct fuel as [|f]; [cbn [length] in Hfuel; lia|].
     cbn [sep_list_more]. rewrite ptag_pipe.
     rewrite p_oper_ws by (apply popts_ws0, Ho).
-    destruct (stage_rt o st t (qtail o ts') Ho Hwf1 Hok1 Ht (stage_stop_qtail o ts' Ho)
-                       (single_pipe_qtail o ts' Ho (stages_nph o stages ts' Hts' Hwf2))) as (lo & Hp & Hc).
+    destruct (P_rt st t (qtail o ts') Hwf1 Hok1 Ht (stage_stop_qtail o ts' Ho)
+                   (single_pipe_qtail o ts' Ho (stages_nph_gen stages ts' Hts' Hwf2))) as (lo & Hp & Hc).
     rewrite Hp.
     destruct (IH ts' Hts' Hwf2 Hok2 f (lo :: acc)) as (los & Hl & Hm).
     { cbn [length] in Hfuel. rewrite !app_length in Hfuel.
@@ -211,14 +228,17 @@ Proof.
     + cbn [map_opt_list map]. rewrite Hc, Hm. reflexivity.
 Qed.
 
-Theorem query_roundtrip_from_stages (o : popts) (fs : list filter) (stages : list stage) (t : str) :
-  popts_ok o = true -> forallb wf_filter fs = true ->
-  forallb (wf_stage o) stages = true -> forallb stage_ok stages = true ->
-  pp_query o fs stages = Some t ->
+Theorem query_roundtrip_gen (fs : list filter) (stages : list stage) (t : str) :
+  forallb wf_filter fs = true ->
+  forallb W stages = true -> forallb stage_ok stages = true ->
+  match all_some (map P stages) with
+  | Some ts => Some ((match fs with [] => lit "*" | _ => fpp_top o fs end) ++ qtail o ts)
+  | None => None
+  end = Some t ->
   accepts t = Some (FAnd fs, stages).
 Proof.
-  intros Ho Hfs Hwf Hok Hpp. unfold pp_query in Hpp.
-  destruct (all_some (map (pp_stage o) stages)) as [ts|] eqn:Hts; [|discriminate].
+  intros Hfs Hwf Hok Hpp.
+  destruct (all_some (map P stages)) as [ts|] eqn:Hts; [|discriminate].
   assert (Et : t = (match fs with [] => lit "*" | _ => fpp_top o fs end) ++ qtail o ts)
     by (injection Hpp as <-; reflexivity).
   subst t. clear Hpp.
@@ -236,15 +256,50 @@ Proof.
     rewrite qtail_skip by assumption. cbn [eat]. rewrite N.eqb_refl.
     unfold parse_operators, sep_list1.
     rewrite p_oper_ws by (apply popts_ws0, Ho).
-    destruct (stage_rt o st t1 (qtail o ts') Ho Hwf1 Hok1 Ht (stage_stop_qtail o ts' Ho)
-                       (single_pipe_qtail o ts' Ho (stages_nph o stages ts' Hts' Hwf2))) as (lo & Hp & Hc).
+    destruct (P_rt st t1 (qtail o ts') Hwf1 Hok1 Ht (stage_stop_qtail o ts' Ho)
+                   (single_pipe_qtail o ts' Ho (stages_nph_gen stages ts' Hts' Hwf2))) as (lo & Hp & Hc).
     rewrite Hp. cbn [pbind].
-    destruct (stages_loop o Ho stages ts' Hts' Hwf2 Hok2 (length (skip_spaces (qtail o ts'))) [lo] (le_n _))
+    destruct (stages_loop_gen stages ts' Hts' Hwf2 Hok2 (length (skip_spaces (qtail o ts'))) [lo] (le_n _))
       as (los & Hl & Hm).
     rewrite Hl. cbn [rev app]. change (is_nil (trim [])) with true. cbn [lq_ops lq_filter].
     cbn [map_opt_list]. rewrite Hc, Hm.
     change (concat ([st] :: map (fun st0 => [st0]) stages)) with (st :: concat (map (fun st0 => [st0]) stages)).
     rewrite concat_singletons. rewrite Hok0. reflexivity.
+Qed.
+End AssemblyGen.
+
+(** the canonical printer [pp_stage o] is the instance the whole-query round trip was first stated for *)
+Section Assembly.
+Hypothesis stage_rt : forall (o : popts) (st : stage) (t k : str),
+  popts_ok o = true -> wf_stage o st = true -> stage_ok st = true -> pp_stage o st = Some t ->
+  stage_stop k = true -> single_pipe k = true ->
+  exists lo, p_oper (t ++ k) = POk lo (skip_spaces k) /\ check_lop true lo = Some [st].
+
+Lemma stages_loop (o : popts) : popts_ok o = true ->
+  forall (stages : list stage) (ts : list str),
+  all_some (map (pp_stage o) stages) = Some ts ->
+  forallb (wf_stage o) stages = true -> forallb stage_ok stages = true ->
+  forall (fuel : nat) (acc : list lop),
+  length (skip_spaces (qtail o ts)) <= fuel ->
+  exists los,
+    sep_list_more fuel (ptag "|") p_oper (skip_spaces (qtail o ts)) acc = POk (rev acc ++ los) [] /\
+    map_opt_list (check_lop true) los = Some (map (fun st => [st]) stages).
+Proof.
+  intros Ho.
+  exact (stages_loop_gen o Ho (pp_stage o) (wf_stage o) (nph_stage o)
+           (fun st t k Hwf Hok Ht Hk1 Hk2 => stage_rt o st t k Ho Hwf Hok Ht Hk1 Hk2)).
+Qed.
+
+Theorem query_roundtrip_from_stages (o : popts) (fs : list filter) (stages : list stage) (t : str) :
+  popts_ok o = true -> forallb wf_filter fs = true ->
+  forallb (wf_stage o) stages = true -> forallb stage_ok stages = true ->
+  pp_query o fs stages = Some t ->
+  accepts t = Some (FAnd fs, stages).
+Proof.
+  intros Ho Hfs Hwf Hok Hpp.
+  exact (query_roundtrip_gen o Ho (pp_stage o) (wf_stage o) (nph_stage o)
+           (fun st t k Hwf Hok Ht Hk1 Hk2 => stage_rt o st t k Ho Hwf Hok Ht Hk1 Hk2)
+           fs stages t Hfs Hwf Hok Hpp).
 Qed.
 End Assembly.
 
